@@ -2,7 +2,7 @@
    Theorems over Model/Writer.v + Model/Reader.v land here as they are proved (DESIGN.md 8/C01). *)
 From Coq Require Import ZArith.
 From ZipV Require Import Base.Bytes Base.Outcome Gen.GenLib Gen.SpecGen Gen.CompressionGen Gen.TypesGen Spec.Utf8 Model.Dos Model.Cp437
-     Model.Readers Model.Reader Model.Writer Proofs.WriterProofs Proofs.Utf8Proofs Proofs.TextProofs Proofs.CentralRoundtrip.
+     Model.Readers Model.Reader Model.Writer Proofs.WriterProofs Proofs.Utf8Proofs Proofs.TextProofs Proofs.Zip64Proofs Proofs.WriterIdeal Proofs.CentralRoundtrip Proofs.OpenRendered.
 Open Scope N_scope.
 
 (* the ZIP64 part of a central record written by the writer is exactly what the reader's extra-field walk
@@ -47,4 +47,53 @@ Proof.
             | intros d H; vm_compute in H; injection H as <-; lia
             | exists 0%nat; reflexivity ].
   - eexists. reflexivity.
+Qed.
+
+(* ---------- directory level: finish(), then open.
+   For every writer state whose last entry closes onto a well-behaved sink holding the bytes b (ANY bytes: the entries
+   written so far), with records that render (wf_central) and a comment that fits: finish() returns
+   b ++ directory ++ end records, and the reader model's open on exactly these bytes succeeds with archive offset 0,
+   the comment, and one entry per writer record, in order, each the [decoded] image of its record (names, methods,
+   CRCs, 64-bit sizes and offsets, attributes, times as packed).  Two hypotheses are the reader's own blind spots,
+   spelled out: without ZIP64 records the 4 bytes 20 in front of the end record must not happen to be the locator
+   signature, and the comment must not contain a later end-record signature (vacuous for an empty comment). *)
+Theorem C01_finish_then_open : forall enc crc s s1 b css,
+  finish_file enc crc s = (s1, Ok tt) -> ws_inner s1 = WStorer (at_end b) ->
+  len (ws_comment s) <= 65535 -> ws_comment s1 = ws_comment s ->
+  Forall2 rendered (ws_files s1) css ->
+  let dir := concat (map (@concat byte) css) in
+  let n := N.of_nat (length (ws_files s1)) in
+  len b + len dir < 2 ^ 64 ->
+  (needs64 n (len dir) (len b) = false -> no_locator_before (b ++ dir)) ->
+  no_later_sig n (len dir) (len b) (ws_comment s) ->
+  exists s2 data gs,
+    finish enc crc s = (s2, Ok data) /\
+    open data = Ok {| ar_data := data; ar_files := gs; ar_offset := 0; ar_comment := ws_comment s |} /\
+    decoded_list (ws_files s1) css (len b) gs.
+Proof. exact finish_then_open. Qed.
+Print Assumptions C01_finish_then_open.
+
+(* the reader on ANY front bytes followed by a rendered directory and end records (not only after finish) *)
+Theorem C01_open_rendered : forall front files css comment gs,
+  Forall2 rendered files css ->
+  let dir := concat (map (@concat byte) css) in
+  let n := N.of_nat (length files) in
+  len front + len dir < 2 ^ 64 -> len comment <= 65535 ->
+  (needs64 n (len dir) (len front) = false -> no_locator_before (front ++ dir)) ->
+  no_later_sig n (len dir) (len front) comment ->
+  decoded_list files css (len front) gs ->
+  exists data, data = front ++ dir ++ concat (end_records n (len front) (len dir) comment) /\
+    open data = Ok {| ar_data := data; ar_files := gs; ar_offset := 0; ar_comment := comment |}.
+Proof. exact open_rendered. Qed.
+Print Assumptions C01_open_rendered.
+
+(* non-vacuity: a fresh writer, finished at once, yields the 22-byte empty archive, which opens *)
+Example C01_empty_archive : forall enc crc,
+  exists s2 data, finish enc crc (new_writer []) = (s2, Ok data) /\ open data = Ok {| ar_data := data; ar_files := []; ar_offset := 0; ar_comment := [] |}.
+Proof.
+  intros. destruct (finish_then_open enc crc (new_writer []) (new_writer []) [] []) as (s2 & data & gs & A & B & C);
+    try reflexivity; try (cbn; lia); try constructor.
+  - intros _ H. cbn in H. lia.
+  - apply no_later_sig_empty.
+  - inversion C; subst. eauto.
 Qed.
